@@ -609,7 +609,7 @@ theorem routerPass_dropped (rh og rp : Option Bytes) (edits : List ReqEdit) (fs 
     (hact : (rh.isNone && rp.isNone && edits.isEmpty) = false) (f : Field)
     (hf : f ∈ routerPass rh og rp edits fs) (n : Bytes) (hn : n ∈ reqDropKeys rh.isSome edits)
     (hk : fieldKeyLower f = some n) : f ∈ reqInserted rh og edits := by
-  simp only [routerPass, hact, Bool.false_eq_true, ↓reduceIte, List.mem_append, List.mem_filter] at hf
+  simp only [routerPass, hact, Bool.false_eq_true, ↓reduceIte, List.mem_append, List.mem_filter, reqKeep] at hf
   rcases hf with ⟨_, hkeep⟩ | hins
   · rw [hk] at hkeep
     simp only [Bool.not_eq_true', List.contains_eq_mem, decide_eq_false_iff_not] at hkeep
@@ -654,7 +654,7 @@ theorem request_edits_all_copies (rh og rp : Option Bytes) (edits : List ReqEdit
     unfold routerPass
     split
     · exact hf
-    · simp only [List.mem_append, List.mem_filter]
+    · simp only [List.mem_append, List.mem_filter, reqKeep]
       refine .inl ⟨hf, ?_⟩
       cases hk : fieldKeyLower f with
       | none => rfl
@@ -662,5 +662,191 @@ theorem request_edits_all_copies (rh og rp : Option Bytes) (edits : List ReqEdit
         simp only [Bool.not_eq_true', List.contains_eq_mem, decide_eq_false_iff_not]
         intro hmem
         exact hno k hmem hk
+
+-- ------------------------------------------------ end-to-end fidelity --
+
+/-- names a frontend's request rules touch: everything the delete pass
+    removes and everything the router inserts (lower-cased) -/
+def ruleNames (rh : Option Bytes) (edits : List ReqEdit) : List Bytes :=
+  reqDropKeys rh.isSome edits ++ edits.map (lower ·.key)
+
+/-- a header name that neither the editor nor the frontend's rules own -/
+def keepName (c : Ctx) (rh : Option Bytes) (edits : List ReqEdit) (k : Bytes) : Bool :=
+  !(ownedNames c).any (eqNoCase k ·) && !(ruleNames rh edits).contains (lower k)
+
+/-- the end-to-end part of a block list across editor and router -/
+def keepField (c : Ctx) (rh : Option Bytes) (edits : List ReqEdit) : Field → Bool
+  | .hdr k _ => keepName c rh edits k
+  | .cookies => true
+
+theorem keepField_not_owned {c : Ctx} {rh : Option Bytes} {edits : List ReqEdit} {f : Field}
+    (h : keepField c rh edits f = true) : (!owned c f) = true := by
+  cases f with
+  | cookies => rfl
+  | hdr k v => simp only [keepField, keepName, Bool.and_eq_true] at h; simpa [owned] using h.1
+
+theorem filter_keep_of_e2e {c : Ctx} {rh : Option Bytes} {edits : List ReqEdit} {a b : List Field}
+    (h : e2e c a = e2e c b) : a.filter (keepField c rh edits) = b.filter (keepField c rh edits) := by
+  have e : ∀ l : List Field, l.filter (keepField c rh edits) = (e2e c l).filter (keepField c rh edits) := by
+    intro l
+    simp only [e2e, List.filter_filter]
+    apply List.filter_congr
+    intro f _
+    cases hk : keepField c rh edits f with
+    | false => simp
+    | true => simp [keepField_not_owned hk]
+  rw [e a, e b, h]
+
+theorem inserted_not_kept (c : Ctx) (rh og : Option Bytes) (edits : List ReqEdit) :
+    (reqInserted rh og edits).filter (keepField c rh edits) = [] := by
+  simp only [List.filter_eq_nil_iff, Bool.not_eq_true]
+  intro f hf
+  simp only [reqInserted, List.mem_append, List.mem_map, List.mem_filter] at hf
+  have drop_in : ∀ k v n, lower k = n → n ∈ ruleNames rh edits → keepField c rh edits (.hdr k v) = false := by
+    intro k v n hk hn
+    simp only [keepField, keepName, Bool.and_eq_false_iff, Bool.not_eq_false', List.contains_eq_mem, decide_eq_true_eq]
+    exact .inr (hk ▸ hn)
+  rcases hf with hf | ⟨e, ⟨he, _⟩, rfl⟩
+  · cases rh with
+    | none => simp at hf
+    | some h =>
+      simp only [List.mem_append, List.mem_cons, List.mem_nil_iff, or_false] at hf
+      rcases hf with rfl | hf
+      · exact drop_in _ _ sHost (by decide) (by simp [ruleNames, reqDropKeys])
+      · cases og with
+        | none => simp at hf
+        | some o =>
+          simp only [List.mem_cons, List.mem_nil_iff, or_false] at hf
+          subst hf
+          exact drop_in _ _ sXFHost (by decide) (by simp [ruleNames, reqDropKeys])
+  · exact drop_in _ _ (lower e.key) rfl (by
+      simp only [ruleNames, List.mem_append, List.mem_map]
+      exact .inr ⟨e, he, rfl⟩)
+
+theorem routerPass_keep (c : Ctx) (rh og rp : Option Bytes) (edits : List ReqEdit) (fs : List Field) :
+    (routerPass rh og rp edits fs).filter (keepField c rh edits) = fs.filter (keepField c rh edits) := by
+  unfold routerPass
+  split
+  · rfl
+  · rw [List.filter_append, inserted_not_kept, List.append_nil, List.filter_filter]
+    apply List.filter_congr
+    intro f _
+    cases hk : keepField c rh edits f with
+    | false => simp
+    | true =>
+      cases f with
+      | cookies => simp [fieldKeyLower, reqKeep]
+      | hdr k v =>
+        simp only [keepField, keepName, Bool.and_eq_true, Bool.not_eq_true', List.contains_eq_mem,
+          decide_eq_false_iff_not] at hk
+        have : lower k ∉ reqDropKeys rh.isSome edits := fun hm => hk.2 (by simp [ruleNames, hm])
+        simp [fieldKeyLower, reqKeep, this]
+
+/-- editor then router: the end-to-end headers are exactly the client's -/
+theorem fidelity_blocks (c : Ctx) (rh og rp : Option Bytes) (edits : List ReqEdit) (fs : List Field) :
+    (routerPass rh og rp edits (editRequest c fs)).filter (keepField c rh edits) = fs.filter (keepField c rh edits) := by
+  rw [routerPass_keep]
+  exact filter_keep_of_e2e (e2e_editRequest c fs)
+
+/-- the same predicate on emitted `(name, value)` lines -/
+def keepLine (c : Ctx) (rh : Option Bytes) (edits : List ReqEdit) (kv : Bytes × Bytes) : Bool :=
+  keepName c rh edits kv.1
+
+theorem keepName_lower (c : Ctx) (rh : Option Bytes) (edits : List ReqEdit) (k : Bytes) :
+    keepName c rh edits (lower k) = keepName c rh edits k := by
+  simp [keepName, eqNoCase_lower_left, lower_idem]
+
+theorem emitFields_filter (c : Ctx) (rh : Option Bytes) (edits : List ReqEdit)
+    (hck : keepName c rh edits cCookie = true) (fs : List Field) (jar : List Crumb) :
+    (emitFields fs jar).filter (keepLine c rh edits) = emitFields (fs.filter (keepField c rh edits)) jar := by
+  induction fs generalizing jar with
+  | nil => rfl
+  | cons f tl ih =>
+    cases f with
+    | hdr k v =>
+      cases hk : keepName c rh edits k <;>
+        simp [emitFields, List.filter_cons, keepLine, keepField, hk, ih jar]
+    | cookies =>
+      simp only [emitFields, List.filter_cons, keepField, ↓reduceIte]
+      split
+      · exact ih jar
+      · simp [List.filter_cons, keepLine, hck, ih []]
+
+theorem h2Fields_filter (c : Ctx) (rh : Option Bytes) (edits : List ReqEdit)
+    (hck : keepName c rh edits sCookie = true) (fs : List Field) (jar : List Crumb) :
+    (h2Fields fs jar).filter (keepLine c rh edits) = h2Fields (fs.filter (keepField c rh edits)) jar := by
+  induction fs generalizing jar with
+  | nil => rfl
+  | cons f tl ih =>
+    cases f with
+    | hdr k v =>
+      have hlow : ∀ x, toH2Header k v = some x → keepLine c rh edits x = keepName c rh edits k := by
+        intro x hx
+        unfold toH2Header at hx
+        split at hx; · cases hx
+        split at hx; · cases hx
+        split at hx; · cases hx
+        cases hx
+        simp [keepLine, keepName_lower]
+      cases ht : toH2Header k v with
+      | none => cases hk : keepName c rh edits k <;> simp [h2Fields, List.filter_cons, keepField, hk, ht, ih jar]
+      | some x =>
+        have := hlow x ht
+        cases hk : keepName c rh edits k <;>
+          simp [h2Fields, List.filter_cons, keepField, hk, ht, ih jar, this]
+    | cookies =>
+      simp only [h2Fields, List.filter_cons, keepField, ↓reduceIte, List.filter_append, ih []]
+      congr 1
+      simp only [List.filter_eq_self, List.mem_map]
+      rintro kv ⟨cr, _, rfl⟩
+      simpa [keepLine] using hck
+
+/-- end to end toward an HTTP/1.1 backend -/
+theorem fidelity_h1 (c : Ctx) (rh og rp : Option Bytes) (edits : List ReqEdit) (fs : List Field) (jar : List Crumb)
+    (hck : keepName c rh edits cCookie = true) :
+    (emitFields (routerPass rh og rp edits (editRequest c fs)) jar).filter (keepLine c rh edits)
+      = (emitFields fs jar).filter (keepLine c rh edits) := by
+  rw [emitFields_filter c rh edits hck, emitFields_filter c rh edits hck, fidelity_blocks]
+
+/-- end to end toward an HTTP/2 backend -/
+theorem fidelity_h2 (c : Ctx) (rh og rp : Option Bytes) (edits : List ReqEdit) (fs : List Field) (jar : List Crumb)
+    (hck : keepName c rh edits sCookie = true) :
+    (h2Fields (routerPass rh og rp edits (editRequest c fs)) jar).filter (keepLine c rh edits)
+      = (h2Fields fs jar).filter (keepLine c rh edits) := by
+  rw [h2Fields_filter c rh edits hck, h2Fields_filter c rh edits hck, fidelity_blocks]
+
+-- ------------------------------- rewrite_host: the proxy-owned pair --
+
+theorem rewrite_host_owned (h o : Bytes) (rp : Option Bytes) (edits : List ReqEdit) (fs : List Field)
+    (hno : ∀ e ∈ edits, eqNoCase e.key sHost = false ∧ eqNoCase e.key sXFHost = false) :
+    namedFields sHost (routerPass (some h) (some o) rp edits fs) = [.hdr cHost h] ∧
+    namedFields sXFHost (routerPass (some h) (some o) rp edits fs) = [.hdr cXFHost o] := by
+  have hins : ∀ n, (n = sHost ∨ n = sXFHost) →
+      namedFields n ((edits.filter (!·.val.isEmpty)).map fun e => Field.hdr e.key e.val) = [] := by
+    intro n hn
+    simp only [namedFields, List.filter_eq_nil_iff, Bool.not_eq_true, List.mem_map, List.mem_filter]
+    rintro f ⟨e, ⟨he, _⟩, rfl⟩
+    rcases hn with rfl | rfl
+    · simpa [isHdrNamed] using (hno e he).1
+    · simpa [isHdrNamed] using (hno e he).2
+  have hkept : ∀ n, (n = sHost ∨ n = sXFHost) →
+      namedFields n (fs.filter (reqKeep (reqDropKeys true edits))) = [] := by
+    intro n hn
+    simp only [namedFields, List.filter_filter, List.filter_eq_nil_iff, Bool.and_eq_true, not_and, Bool.not_eq_true, reqKeep]
+    intro f _ hnamed
+    have hk := named_key hnamed
+    have hl : lower n = n := by rcases hn with rfl | rfl <;> decide
+    rw [hl] at hk
+    have hm : n ∈ reqDropKeys true edits := by rcases hn with rfl | rfl <;> simp [reqDropKeys]
+    simp [hk, hm]
+  constructor
+  · simp only [routerPass, Option.isNone_some, Bool.false_and, Bool.false_eq_true, ↓reduceIte, Option.isSome_some,
+      namedFields_append, reqInserted]
+    rw [hkept sHost (.inl rfl), hins sHost (.inl rfl)]
+    simp [namedFields, isHdrNamed, show eqNoCase cHost sHost = true by decide, show eqNoCase cXFHost sHost = false by decide]
+  · simp only [routerPass, Option.isNone_some, Bool.false_and, Bool.false_eq_true, ↓reduceIte, Option.isSome_some,
+      namedFields_append, reqInserted]
+    rw [hkept sXFHost (.inr rfl), hins sXFHost (.inr rfl)]
+    simp [namedFields, isHdrNamed, show eqNoCase cHost sXFHost = false by decide, show eqNoCase cXFHost sXFHost = true by decide]
 
 end Sozu.Headers
